@@ -485,8 +485,10 @@ fn nterm(k: usize) -> String {
     format!("(N {k})")
 }
 
-fn gen_rows(rng: &mut Rng, dom: usize, out: &mut Vec<String>, scale: usize, only: Option<usize>) {
-    let sizes = [0usize, 1, 5, 12, 31, 32, 33, 60, 100, 100, 200, 400];
+fn gen_rows(rng: &mut Rng, dom: usize, out: &mut Vec<String>, scale: usize, only: Option<usize>, small: bool) {
+    let big_sizes = [0usize, 1, 5, 12, 31, 32, 33, 60, 100, 100, 200, 400];
+    let small_sizes = [0usize, 1, 3, 5, 8, 12, 20, 31, 32, 33, 40, 60];
+    let sizes: &[usize] = if small { &small_sizes } else { &big_sizes };
     for (ti, t) in TABS.iter().enumerate() {
         if ti == N_TAB {
             continue;
@@ -496,9 +498,9 @@ fn gen_rows(rng: &mut Rng, dom: usize, out: &mut Vec<String>, scale: usize, only
                 continue;
             }
         }
-        let n = (*rng.pick(&sizes)).min(if t.cols.len() == 1 { dom } else { 400 }) * scale;
+        let n = (*rng.pick(sizes)).min(if t.cols.len() == 1 { dom } else { 400 }) * scale;
         let ncols = t.cols.len() + t.out.is_some() as usize;
-        if ncols >= 2 && t.out.is_none() && rng.chance(1, 5) {
+        if ncols >= 2 && t.out.is_none() && !small && rng.chance(1, 5) {
             // contiguous runs: per key a block of 17..40 consecutive rows that share the key (and, for
             // wider tables, one more column whose value recurs under several keys) and differ in the
             // last column
@@ -558,6 +560,89 @@ fn gen_rows(rng: &mut Rng, dom: usize, out: &mut Vec<String>, scale: usize, only
     }
 }
 
+/// Planted solutions: rows that make every atom of the body true under a few random assignments,
+/// so that bodies of any shape have matches; an atom with a variable that occurs nowhere else may be
+/// expanded into a contiguous run of rows that differ only in that variable (several assignments
+/// then share the other columns' values: large same-value groups under several keys).
+fn plant(b: &Body, rng: &mut Rng, dom: usize, out: &mut Vec<String>) {
+    let occurrences = |v: usize| -> usize {
+        b.atoms.iter().map(|a| a.args.iter().filter(|p| **p == P::Var(v)).count() + (a.out == Some(P::Var(v))) as usize).sum::<usize>()
+            + b.guards.iter().map(|g| match g {
+                Guard::Lt(x, _) | Guard::NeC(x, _) => (*x == v) as usize,
+                Guard::Le(x, y) | Guard::NeV(x, y) => (*x == v) as usize + (*y == v) as usize,
+                Guard::Plus(k, x, y) => (*k == v) as usize + (*x == v) as usize + (*y == v) as usize,
+            }).sum::<usize>()
+    };
+    let small = dom.min(4);
+    let nplant = 1 + rng.below(4);
+    let mut fresh = 3000usize;
+    let mut blocks: Vec<Vec<String>> = vec![vec![]; b.atoms.len()];
+    for _ in 0..nplant {
+        // assignment: var -> term text
+        let mut asg: Vec<Option<String>> = b.var_ty.iter().map(|t| match t {
+            Ty::S => Some(nterm(rng.below(small))),
+            Ty::I => Some(rng.range(0, 3).to_string()),
+        }).collect();
+        // constructor atoms define their output variable (no union needed), in body order
+        let mut defined: Vec<bool> = vec![false; b.var_ty.len()];
+        for (ai, a) in b.atoms.iter().enumerate() {
+            let t = &TABS[a.tab];
+            let val = |p: &P, asg: &Vec<Option<String>>| -> String {
+                match p {
+                    P::Var(v) => asg[*v].clone().unwrap(),
+                    P::ConstS(k) => nterm(*k as usize),
+                    P::ConstI(k) => k.to_string(),
+                }
+            };
+            // a variable that occurs only here may vary over a run
+            let free: Option<usize> = a.args.iter().filter_map(|p| if let P::Var(v) = p { Some(*v) } else { None }).find(|v| occurrences(*v) == 1);
+            let run = match free {
+                Some(_) if rng.chance(1, 2) => *rng.pick(&[3usize, 17, 20, 33]),
+                _ => 1,
+            };
+            for j in 0..run {
+                let mut asg2 = asg.clone();
+                if let (Some(v), true) = (free, run > 1) {
+                    asg2[v] = Some(match b.var_ty[v] {
+                        Ty::S => {
+                            fresh += 1;
+                            nterm(fresh)
+                        }
+                        Ty::I => (100 + j).to_string(),
+                    });
+                }
+                let args: Vec<String> = a.args.iter().map(|p| val(p, &asg2)).collect();
+                let app = format!("({} {})", t.name, args.join(" "));
+                match (&a.out, t.out) {
+                    (None, _) => blocks[ai].push(app),
+                    (Some(P::Var(y)), Some(Ty::S)) if !defined[*y] && j == 0 && occurrences(*y) >= 1 => {
+                        // y := the application itself
+                        asg[*y] = Some(app.clone());
+                        defined[*y] = true;
+                        blocks[ai].push(app);
+                    }
+                    (Some(o), Some(Ty::S)) => blocks[ai].push(format!("(union {app} {})", val(o, &asg2))),
+                    (Some(o), Some(Ty::I)) => blocks[ai].push(format!("(set {app} {})", val(o, &asg2))),
+                    _ => {}
+                }
+            }
+        }
+    }
+    // all rows of one atom's table contiguously
+    for bl in blocks {
+        out.extend(bl);
+    }
+}
+
+struct Timing(u64, std::time::Instant);
+impl Drop for Timing {
+    fn drop(&mut self) {
+        if std::env::var("VERIF_TIMING").is_ok() && self.1.elapsed().as_millis() > 1500 {
+            eprintln!("case {} took {} ms", self.0, self.1.elapsed().as_millis());
+        }
+    }
+}
+
 struct RuleCase {
     body: Body,
     out_name: String,
@@ -581,6 +666,8 @@ pub fn run(a: &Args) -> Report {
     let n = a.cases(200, 8000);
     let root = Rng::new(a.seed);
     for case in 0..n {
+        let t_case = std::time::Instant::now();
+        let _guard = Timing(case, t_case);
         let mut rng = root.fork(case);
         let dom = *rng.pick(&[3usize, 4, 5, 6, 8, 10, 14, 25, 60]);
         let mut eg = EGraph::new(a.threads);
@@ -590,7 +677,8 @@ pub fn run(a: &Args) -> Report {
         }
         let mut log: Vec<String> = vec![PRELUDE.to_string()];
         let mut setup: Vec<String> = vec![];
-        gen_rows(&mut rng, dom, &mut setup, 1, None);
+        let planting = rng.chance(1, 2);
+        gen_rows(&mut rng, dom, &mut setup, 1, None, planting);
         // constants used by patterns exist only sometimes
         for k in 0..rng.below(6) {
             setup.push(nterm(k));
@@ -611,6 +699,11 @@ pub fn run(a: &Args) -> Report {
         let mut decls = vec![];
         for bi in 0..nb {
             let body = gen_body(&mut rng);
+            if planting {
+                let before = setup.len();
+                plant(&body, &mut rng, dom, &mut setup);
+                rep.count("planted_rows", (setup.len() - before) as u64);
+            }
             for (vi, opt) in ["", " :no-decomp"].iter().enumerate() {
                 let out_name = format!("Out{bi}_{vi}");
                 let tys: Vec<&str> = body.var_ty.iter().map(|t| if *t == Ty::S { "S" } else { "i64" }).collect();
@@ -642,7 +735,7 @@ pub fn run(a: &Args) -> Report {
                 for _ in 0..(1 + rng.below(2)) {
                     let ti = rng.below(N_TAB);
                     let scale = 1 + rng.below(4);
-                    gen_rows(&mut rng, dom, &mut more, scale, Some(ti));
+                    gen_rows(&mut rng, dom, &mut more, scale, Some(ti), planting);
                 }
                 for _ in 0..rng.below(4) {
                     more.push(format!("(union {} {})", nterm(rng.below(dom)), nterm(rng.below(dom))));
@@ -703,6 +796,12 @@ pub fn run(a: &Args) -> Report {
             dump::register_unordered_from(&eg);
             let before = Dump::take(&eg, false);
             let db = db_of(&before);
+            // oracle first: a body whose result is huge is not worth the engine's time (and the oracle's cap)
+            let expected: Vec<Option<BTreeSet<Vec<Val>>>> = rules.iter().map(|rc| evaluate(&rc.body, &db, 60_000)).collect();
+            if expected.iter().any(|m| m.is_none()) {
+                rep.count("cases_abandoned_result_too_large", 1);
+                break;
+            }
             log.push("(run q 1)".into());
             match run::run(&mut eg, "(run q 1)") {
                 Outcome::Ok(_) => {}
@@ -712,11 +811,8 @@ pub fn run(a: &Args) -> Report {
                 }
             }
             let after = Dump::take(&eg, false);
-            for rc in &rules {
-                let Some(m) = evaluate(&rc.body, &db, 300_000) else {
-                    rep.count("bodies_skipped_result_too_large", 1);
-                    continue;
-                };
+            for (rc, m) in rules.iter().zip(expected.into_iter()) {
+                let Some(m) = m else { continue };
                 let (Some(ob), Some(oa)) = (out_rows(&before, &rc.out_name), out_rows(&after, &rc.out_name)) else {
                     rep.inconclusive("Out table not readable");
                     continue;
